@@ -1,34 +1,26 @@
-//! Replays of concrete histories against the REAL crate (public API only).
-//! `witness <name>` prints `REPRODUCED <name> ...` (the defect shows) or `NOT-REPRODUCED <name> ...`.
-//! Exit status is always 0 unless the name is unknown; the caller reads the line.
-use rust_rule_engine::streaming::event::StreamEvent;
-use rust_rule_engine::streaming::window::{TimeWindow, WindowType};
-use std::collections::HashMap;
-use std::time::Duration;
+//! Replays and bounded witness searches against the REAL crate (public API only).
+//!
+//!   witness <filter>      runs every witness whose name starts with <filter> (e.g. `c10`, `c12_late`, `all`)
+//!
+//! Each witness prints one line: `REPRODUCED <name> <concrete failing input>` (the real code violates the
+//! property on that input) or `NOT-REPRODUCED <name> <what was tried>`.  A witness never decides that a
+//! property HOLDS — that is the verifier's job — it only supplies concrete failing inputs for replay.
+mod c10;
+mod c12;
 
-fn ev(ts: u64) -> StreamEvent {
-    StreamEvent::with_timestamp("E", HashMap::new(), "w", ts)
-}
-
-/// C12: record 100, 10 (late), 120 into a 50 ms sliding window: event 10 must not be retained
-fn c12_late_event_retained() -> (bool, String) {
-    let mut w = TimeWindow::new(WindowType::Sliding, Duration::from_millis(50), 0, 100);
-    w.record(ev(100));
-    w.record(ev(10));
-    w.record(ev(120));
-    let ts: Vec<u64> = w.events().iter().map(|e| e.metadata.timestamp).collect();
-    let bad = ts.iter().any(|t| *t < w.start_time);
-    (bad, format!("retained={:?} start_time={}", ts, w.start_time))
-}
+pub type W = (&'static str, fn() -> (bool, String));
 
 fn main() {
     let name = std::env::args().nth(1).unwrap_or_default();
-    let all: Vec<(&str, fn() -> (bool, String))> = vec![("c12_late_event_retained", c12_late_event_retained)];
+    let mut all: Vec<W> = Vec::new();
+    all.extend(c10::witnesses());
+    all.extend(c12::witnesses());
     let mut ran = false;
     for (n, f) in &all {
-        if name == *n || name == "all" {
+        if name == "all" || n.starts_with(&name) {
             ran = true;
-            let r = std::panic::catch_unwind(|| f());
+            let f = *f;
+            let r = std::panic::catch_unwind(move || f());
             match r {
                 Ok((true, d)) => println!("REPRODUCED {} {}", n, d),
                 Ok((false, d)) => println!("NOT-REPRODUCED {} {}", n, d),
